@@ -34,6 +34,11 @@ Proof.
   rewrite cos_minus, Hc, Hs. exact Hu.
 Qed.
 
+Lemma Reqb_false x y : x <> y -> Reqb x y = false.
+Proof. intros H. unfold Reqb. destruct (Req_EM_T x y); [contradiction | reflexivity]. Qed.
+Lemma st_is_zero_false (Rm : M33 R) : log_st Rops Rm <> 0 -> st_is_zero Rops Rm = false.
+Proof. intros H. unfold st_is_zero. cbn [eqb zero Rops]. apply Reqb_false. exact H. Qed.
+
 (* ---------------- the quantities of trlog on an explicit matrix ---------------- *)
 Section Explicit.
 Variables r00 r01 r02 r10 r11 r12 r20 r21 r22 : R.
@@ -116,7 +121,7 @@ Proof.
     replace (r00 + r11 + r22 + 1) with 0 by (unfold c in *; lra). rewrite Rabs_R0. nra. }
   (* the twist-form log *)
   assert (Hw : trlog_so3_tw Rops K Rm = ((r21 - r12)/2/st*th, (r02 - r20)/2/st*th, (r10 - r01)/2/st*th)).
-  { unfold trlog_so3_tw. rewrite Hbr. unfold log_general. fold th st. clearbody th st. unfold Rm. c03_simpl.
+  { unfold trlog_so3_tw. rewrite Hbr, st_is_zero_false by (fold st; lra). unfold log_general. fold th st. clearbody th st. unfold Rm. c03_simpl.
     tuple_eq ltac:(field; lra). }
   rewrite Hw.
   assert (Hu : ((r21 - r12)/2/st)*((r21 - r12)/2/st) + ((r02 - r20)/2/st)*((r02 - r20)/2/st) + ((r10 - r01)/2/st)*((r10 - r01)/2/st) = 1).
@@ -135,7 +140,7 @@ Theorem logexp_so3_general K (u : V3 R) th :
   trlog_so3_branch Rops K (rodrigues_th Rops u th) = BrGen ->
   trlog_so3_tw Rops K (rodrigues_th Rops u th) = vscale3 Rops th u.
 Proof.
-  intros Hu Hth Hbr. unfold trlog_so3_tw. rewrite Hbr. unfold log_general.
+  intros Hu Hth Hbr. unfold trlog_so3_tw. rewrite Hbr.
   assert (Hs : 0 < sin th) by (apply sin_gt_0; lra).
   destruct u as [[u0 u1] u2].
   assert (Hli : log_li Rops (rodrigues_th Rops (u0,u1,u2) th) = (sin th * u0, sin th * u1, sin th * u2)).
@@ -148,6 +153,7 @@ Proof.
     transitivity ((3 - 2*(1 - c)*(u0*u0 + u1*u1 + u2*u2) - 1)/(1+1)); [f_equal; ring | rewrite Hu; field]. }
   assert (Hlt : log_theta Rops (rodrigues_th Rops (u0,u1,u2) th) = th).
   { unfold log_theta. rewrite Hst, Hc. cbn [atan2_ Rops]. apply atan2_sin_cos. lra. }
+  rewrite st_is_zero_false by (rewrite Hst; lra). unfold log_general.
   rewrite Hlt, Hst. unfold rodrigues_th. cbn [cos_ sin_ Rops]. revert Hs.
   generalize (cos th) (sin th). intros c s Hs. c03_simpl. tuple_eq ltac:(field; lra).
 Qed.
@@ -560,7 +566,7 @@ Proof.
   intros H. unfold trlog_so3_mat, trlog_so3_tw. destruct (trlog_so3_branch Rops K Rm) eqn:Hb.
   - c03_simpl. tuple_eq ltac:(ring).
   - reflexivity.
-  - destruct H as [H|H]; [|contradiction]. unfold log_general. revert H.
+  - destruct H as [H|H]; [|contradiction]. rewrite st_is_zero_false by exact H. unfold log_general. revert H.
     generalize (log_st Rops Rm) (log_theta Rops Rm). intros st th H.
     destruct Rm as [[[[r00 r01] r02] [[r10 r11] r12]] [[r20 r21] r22]]. c03_simpl. tuple_eq ltac:(field; exact H).
 Qed.
@@ -609,7 +615,7 @@ Proof.
   assert (Hmat : trlog_so3_mat Rops K Rm = skew3 Rops (trlog_so3_tw Rops K Rm)).
   { apply trlog_so3_mat_skew. destruct (trlog_so3_branch Rops K Rm) eqn:Hb; [contradiction | right; discriminate | left].
     assert (0 < log_st Rops Rm) by (apply (general_st_pos K); assumption). lra. }
-  rewrite Hmat, vex3_skew3, Hnorm.
+  rewrite Hmat, vex3_skew3, Hnorm. cbn [eqb zero Rops]. rewrite (Reqb_false (log_theta Rops Rm) 0) by lra.
   set (th := log_theta Rops Rm) in *. clearbody th.
   destruct (trlog_so3_tw Rops K Rm) as [[L0 L1] L2].
   assert (Hsq : L0*L0 + L1*L1 + L2*L2 = th*th).
